@@ -935,6 +935,58 @@ func TestVerif_C31(t *testing.T) {
 	// (b) random histories over 2 blobs x 2 namespaces
 	r := verifh.NewRand(verifh.Seed(), "c31")
 	keys := []string{"k0", "k1", "k2", "k3"}
+	// (b0) two clients pushing the same layer: an upload is started (and maybe patched), the blob gets
+	// cached through another upload / a fetch, then the first upload goes on (conflict at the patch or
+	// commit site), then a short random tail (executions, deletions, forced cleanups, restarts)
+	for i := 0; i < verifh.Scale(80, 1500); i++ {
+		ki := r.Intn(len(keys))
+		k, other := keys[ki], keys[ki^1]
+		b := "b" + strconv.Itoa(ki/2)
+		ops := [][]string{{"op", "ubegin", k}}
+		patched := r.Chance(1, 2)
+		if patched {
+			ops = append(ops, []string{"op", "upatch", k})
+		}
+		switch r.Intn(4) {
+		case 0:
+			ops = append(ops, []string{"op", "upload", other})
+		case 1:
+			ops = append(ops, []string{"op", "upload", k})
+		case 2:
+			ops = append(ops, []string{"op", "fetch", b})
+		default:
+			ops = append(ops, []string{"op", "upload", other}, []string{"op", "exec", other})
+		}
+		if r.Chance(1, 4) {
+			if r.Chance(1, 2) {
+				ops = append(ops, []string{"op", "del", b})
+			} else {
+				ops = append(ops, []string{"op", "fc"})
+			}
+		}
+		if !patched {
+			ops = append(ops, []string{"op", "upatch", k})
+		}
+		ops = append(ops, []string{"op", r.Pick("ucommit", "ucommit", "dcommit"), k})
+		for j := r.Intn(5); j > 0; j-- {
+			switch r.Intn(6) {
+			case 0:
+				ops = append(ops, []string{"op", "exec", r.Pick(k, other)})
+			case 1:
+				ops = append(ops, []string{"op", "del", b})
+			case 2:
+				ops = append(ops, []string{"op", "fc"})
+			case 3:
+				ops = append(ops, []string{"op", "poll"})
+			case 4:
+				ops = append(ops, []string{"op", "restart"})
+			default:
+				ops = append(ops, []string{"op", "exec", k})
+			}
+		}
+		c31Run(base, tr, verifh.Case{Ops: ops})
+		tr.Count("conflict_site_cases", 1)
+	}
 	for i := 0; i < verifh.Scale(400, 8000); i++ {
 		var ops [][]string
 		for j := 3 + r.Intn(14); j > 0; j-- {
